@@ -74,11 +74,13 @@ def pick(rng, xs):
     return xs[int(rng.integers(0, len(xs)))]
 
 
-ATT = [0.0, 0.5, 1.0, 16.0, 2.75, 50.0, 300.0, 1000.0]
-ORD = [1, 2, 3, 18, 1, 2, 0]
-CUT = [0.0, 0.0, 0.25, 0.5, 0.4, 0.9]
-SCALE = [0.0, 0.01, 0.1, 1.5, 0.003]
-HORD = [1, 2, 3]
+ATT = [0.0, 0.5, 1.0, 16.0, 2.75, 50.0, 300.0, 1000.0, 1e4, 1e6, 87.5, 1e-3]
+ORD = [1, 2, 3, 18, 1, 2, 0, 32, 50]
+CUT = [0.0, 0.0, 0.25, 0.5, 0.4, 0.9, 0.875, 0.99, 0.999]
+SCALE = [0.0, 0.01, 0.1, 1.5, 0.003, 100.0, 1e4, 1e-6]
+HORD = [1, 2, 3, 4]
+# dt/tau over many decades, dense around the float32-ish thresholds 87/88, 100, 700/16 and the float64 underflow ~708/745
+RATIO = [1e-3, 0.01, 0.1, 0.5, 1.0, 4.0, 16.0, 43.75, 60.0, 86.0, 87.0, 88.0, 96.0, 100.0, 144.0, 200.0, 500.0, 700.0, 750.0, 1000.0, 3000.0]
 DT = [1.0, 0.5, 0.1, 0.3]
 TAU = [0.010938, 0.25, 2.0, 10.0]
 
@@ -117,6 +119,19 @@ def generate(ctx):
         yield 'hdfilter', {'grid': g, 'scale': 0.003, 'order': 2, 'K': 1}
         yield 'expstep', {'grid': g, 'dt': 0.5, 'tau': 0.25, 'p': 2, 'c': 0.25, 'leapfrog': 0, 'dseed': 1}
         yield 'expstep', {'grid': g, 'dt': 0.5, 'tau': 2.0, 'p': 1, 'c': 0.0, 'leapfrog': 1, 'dseed': 2}
+        yield 'expstep', {'grid': g, 'dt': 96 * 0.010938, 'tau': 0.010938, 'p': 1, 'c': 0.0, 'leapfrog': 0, 'dseed': 11}   # dt/tau = 96
+        yield 'expstep', {'grid': g, 'dt': 36.0, 'tau': 0.25, 'p': 2, 'c': 0.25, 'leapfrog': 1, 'dseed': 12}               # 144
+        yield 'expstep', {'grid': g, 'dt': 1.0, 'tau': 0.01, 'p': 18, 'c': 0.0, 'leapfrog': 0, 'dseed': 13}                # 100, default order
+        yield 'expstep', {'grid': g, 'dt': 250.0, 'tau': 0.25, 'p': 1, 'c': 0.5, 'leapfrog': 1, 'dseed': 14}               # 1000: top modes underflow
+        yield 'expstep', {'grid': g, 'dt': 0.001, 'tau': 1.0, 'p': 3, 'c': 0.0, 'leapfrog': 0, 'dseed': 15}                # 1e-3
+        yield 'hdstep', {'grid': g, 'dt': 25.0, 'tau': 0.25, 'order': 1, 'dseed': 16}                                      # 100
+        yield 'hdstep', {'grid': g, 'dt': 500.0, 'tau': 0.5, 'order': 2, 'dseed': 17}                                      # 1000
+        yield 'hdstep', {'grid': g, 'dt': 0.002, 'tau': 2.0, 'order': 4, 'dseed': 18}                                      # 1e-3
+        yield 'expfilter', {'grid': g, 'a': 1e6, 'p': 1, 'c': 0.0, 'K': 1}          # very large attenuation
+        yield 'expfilter', {'grid': g, 'a': 16.0, 'p': 50, 'c': 0.0, 'K': 1}        # high order
+        yield 'expfilter', {'grid': g, 'a': 16.0, 'p': 1, 'c': 0.999, 'K': 1}       # cutoff close to 1
+        yield 'expfilter', {'grid': g, 'a': 300.0, 'p': 18, 'c': 0.875, 'K': 1}
+        yield 'hdfilter', {'grid': g, 'scale': 1e4, 'order': 4, 'K': 1}
         yield 'hdstep', {'grid': g, 'dt': 0.5, 'tau': 2.0, 'order': 1, 'dseed': 3}
         yield 'hdstep', {'grid': g, 'dt': 1.0, 'tau': 0.25, 'order': 2, 'dseed': 4}
         yield 'tree', {'grid': g, 'kind': 'exp', 'par': [16.0, 2, 0.25], 'K': 2, 'dseed': 5}
@@ -125,20 +140,26 @@ def generate(ctx):
         yield 'array_strength', {'grid': g, 'kind': 'hd', 'strengths': [1.0, 2.0, 0.5], 'par': [1], 'lead': 3, 'K': 3, 'dseed': 8}
         yield 'array_strength', {'grid': g, 'kind': 'hdstep', 'strengths': [1.0, 2.0, 3.0], 'par': [0.1, 2], 'lead': 3, 'K': 3, 'dseed': 9}
         yield 'array_strength', {'grid': g, 'kind': 'expstep', 'strengths': [0.25, 4.0], 'par': [0.5, 1, 0.0], 'lead': 4, 'K': 2, 'dseed': 10}
+        yield 'array_strength', {'grid': g, 'kind': 'expstep', 'strengths': [0.25, 0.004, 0.001], 'par': [0.5, 1, 0.0], 'lead': 4, 'K': 1, 'dseed': 19}   # dt/tau = 2, 125, 500
+        yield 'array_strength', {'grid': g, 'kind': 'exp', 'strengths': [16.0, 100.0, 1e4], 'par': [2, 0.25], 'lead': 3, 'K': 1, 'dseed': 20}
+        yield 'array_strength', {'grid': g, 'kind': 'hdstep', 'strengths': [2.0, 0.005], 'par': [0.5, 1], 'lead': 4, 'K': 2, 'dseed': 21}                  # dt/tau = 0.25, 100
     n = 6 if quick else 60
     for _ in range(n):
         g = rand_grid(rng, ctx.tier)
         ctx.count('impl=' + g['impl']); ctx.count('L=%d' % g['L'])
         yield 'expfilter', {'grid': g, 'a': pick(rng, ATT), 'p': pick(rng, ORD), 'c': pick(rng, CUT), 'K': int(rng.integers(1, 3))}
         yield 'hdfilter', {'grid': g, 'scale': pick(rng, SCALE), 'order': pick(rng, HORD), 'K': int(rng.integers(1, 3))}
-        yield 'expstep', {'grid': g, 'dt': pick(rng, DT), 'tau': pick(rng, TAU), 'p': pick(rng, ORD[:6]), 'c': pick(rng, CUT),
-                          'leapfrog': int(rng.integers(0, 2)), 'dseed': int(rng.integers(0, 2 ** 31))}
-        yield 'hdstep', {'grid': g, 'dt': pick(rng, DT), 'tau': pick(rng, TAU), 'order': pick(rng, HORD),
-                         'dseed': int(rng.integers(0, 2 ** 31))}
+        for _r in range(3):
+            tau = pick(rng, TAU)
+            yield 'expstep', {'grid': g, 'dt': pick(rng, RATIO) * tau, 'tau': tau, 'p': pick(rng, [1, 2, 3, 18, 1, 32]), 'c': pick(rng, CUT),
+                              'leapfrog': int(rng.integers(0, 2)), 'dseed': int(rng.integers(0, 2 ** 31))}
+            tau = pick(rng, TAU)
+            yield 'hdstep', {'grid': g, 'dt': pick(rng, RATIO) * tau, 'tau': tau, 'order': pick(rng, HORD),
+                             'dseed': int(rng.integers(0, 2 ** 31))}
         kind = pick(rng, ['exp', 'hd', 'expstep', 'hdstep'])
         par = {'exp': [pick(rng, ATT[:6]), pick(rng, ORD[:6]), pick(rng, CUT)], 'hd': [pick(rng, SCALE), pick(rng, HORD)],
-               'expstep': [pick(rng, DT), pick(rng, TAU[1:]), pick(rng, ORD[:6]), pick(rng, CUT)],
-               'hdstep': [pick(rng, DT), pick(rng, TAU), pick(rng, HORD)]}[kind]
+               'expstep': [pick(rng, RATIO[:16]) * 0.25, 0.25, pick(rng, ORD[:6]), pick(rng, CUT)],
+               'hdstep': [pick(rng, RATIO[:16]) * 2.0, 2.0, pick(rng, HORD)]}[kind]
         yield 'tree', {'grid': g, 'kind': kind, 'par': par, 'K': int(rng.integers(1, 4)), 'dseed': int(rng.integers(0, 2 ** 31))}
         kind = pick(rng, ['exp', 'hd', 'expstep', 'hdstep'])
         T = int(rng.integers(1, 4))
@@ -146,12 +167,19 @@ def generate(ctx):
         par = {'exp': [pick(rng, ORD[:6]), pick(rng, CUT)], 'hd': [pick(rng, HORD)],
                'expstep': [pick(rng, DT), pick(rng, ORD[:6]), pick(rng, CUT)], 'hdstep': [pick(rng, DT), pick(rng, HORD)]}[kind]
         if kind == 'hd': st = [s / 16 for s in st]
+        if kind in ('expstep', 'hdstep') and rng.integers(0, 2): st = [s / pick(rng, [64.0, 512.0, 4096.0]) for s in st]
         yield 'array_strength', {'grid': g, 'kind': kind, 'strengths': st, 'par': par, 'lead': int(pick(rng, [3, 4])),
                                  'K': int(rng.integers(1, 4)), 'dseed': int(rng.integers(0, 2 ** 31))}
     for i in range(6 if quick else 40):
         yield 'robert_asselin', {'r': pick(rng, [0.0, 0.01, 0.05, 0.25, 0.5, 1.0]), 'linear': int(i % 2),
                                  'shapes': [[], [1], [int(rng.integers(1, 4)), int(rng.integers(1, 6))], [2, 3, 4], [int(rng.integers(1, 7))]],
                                  'dseed': int(rng.integers(0, 2 ** 31))}
+    # integer-dtype leaves (step counters, index arrays) in a time-linear sequence
+    for r in [0.01, 0.02, 0.03, 0.05, 0.1, 0.5]:
+        yield 'ra_int', {'r': r, 'steps': 60 if quick else 200, 'stride': 1}
+    if not quick:
+        for _ in range(10):
+            yield 'ra_int', {'r': float(rng.integers(1, 500)) / 1000.0, 'steps': 100, 'stride': int(rng.integers(1, 6))}
 
 
 # ---------------------------------------------------------------------------
@@ -214,6 +242,49 @@ def _factor_oracles(ctx, name, fac, lw, exps):
                {'factors': flat.tolist()[:4]})
 
 
+def _log_corr(ctx, name, fac, exps):
+    """Exponent-level correspondence: log(factor) vs the exact exponent wherever the factor is a normal
+    float (exponent > -700); where the exact factor underflows both sides must be (denormally) tiny."""
+    fac = np.asarray(fac, dtype=np.float64); L = len(exps)
+    flat = fac.reshape(-1, L); e = np.array([float(q) for q in exps])
+    rep = e > -700.0
+    ok_small = bool(np.all(flat[:, ~rep] <= 1e-300)) and bool(np.all(flat[:, ~rep] >= 0))
+    ctx.exact(name + ': factor is 0/denormally small where the exact exponent < -700', [ok_small], [True])
+    sub = flat[:, rep]
+    if sub.size == 0: return
+    if not bool(np.all(sub > 0)):
+        ctx.exact(name + ': factor > 0 where the exponent > -700 (log correspondence)', [False], [True]); return
+    lg = np.log(sub); er = e[rep][None, :]
+    tol = 2.0 ** -36 * np.abs(er) + 4e-16
+    bad = ~(np.abs(lg - er) <= tol)
+    if bad.any():
+        i = np.unravel_index(int(np.argmax(np.abs(lg - er) - tol)), lg.shape)
+        ctx.exact(name + ': log(factor) = exact exponent', {'log_factor': float(lg[i]), 'column': int(np.flatnonzero(rep)[i[1]])},
+                  {'log_factor': float(er[0, i[1]]), 'column': int(np.flatnonzero(rep)[i[1]])})
+    else:
+        ctx.exact(name + ': log(factor) = exact exponent', [True], [True])
+
+
+def _semigroup_factors(ctx, clause, fac_full, fac_half, exps):
+    """F(dt) vs F(dt/2) o F(dt/2) on the factors themselves: in the log domain where the full-step factor
+    is a normal float, and 'both tiny' where it underflows (documented float caveat)."""
+    L = len(exps); e = np.array([float(q) for q in exps])
+    ff = np.asarray(fac_full, dtype=np.float64).reshape(-1, L); fh = np.asarray(fac_half, dtype=np.float64).reshape(-1, L)
+    rep = e > -700.0
+    ok = bool(np.all(fh[:, ~rep] ** 2 <= 1e-300)) and bool(np.all(ff[:, ~rep] <= 1e-300))
+    det = None
+    if ok and rep.any():
+        a_, b_ = ff[:, rep], fh[:, rep]
+        if not (np.all(a_ > 0) and np.all(b_ > 0)):
+            ok = False; det = {'full': a_[0].tolist(), 'half': b_[0].tolist()}
+        else:
+            d = np.abs(np.log(a_) - 2 * np.log(b_)); tol = 2.0 ** -36 * np.abs(e[rep])[None, :] + 1e-15
+            if not np.all(d <= tol):
+                ok = False; i = np.unravel_index(int(np.argmax(d - tol)), d.shape)
+                det = {'column': int(np.flatnonzero(rep)[i[1]]), 'log F(dt)': float(np.log(a_[i])), '2 log F(dt/2)': float(2 * np.log(b_[i]))}
+    ctx.oracle(clause, ok, det)
+
+
 def _apply(ctx, clause, fn, *xs):
     """Call a filter; an exception is a failure of `clause` (not a harness error)."""
     try:
@@ -234,6 +305,7 @@ def r_expfilter(ctx, a):
     ctx.exact('shape kept', list(fac.shape), list(ones.shape))
     tab = [Fraction(fexp(q)) for q in exps]
     ctx.corr('exponential_filter factors', fac, tab * (fac.size // L), scale=1.0)
+    _log_corr(ctx, 'exponential_filter', fac, exps)
     _exp_table_obligations(ctx, exps)
     _factor_oracles(ctx, 'exponential_filter', fac, lw, exps)
     ctx.count('order=%d' % a['p'])
@@ -252,6 +324,7 @@ def r_hdfilter(ctx, a):
     fac = np.asarray(f(ones))
     ctx.exact('shape kept', list(fac.shape), list(ones.shape))
     ctx.corr('horizontal_diffusion_filter factors', fac, [Fraction(fexp(q)) for q in exps] * (fac.size // L), scale=1.0)
+    _log_corr(ctx, 'horizontal_diffusion_filter', fac, exps)
     _exp_table_obligations(ctx, exps)
     _factor_oracles(ctx, 'horizontal_diffusion_filter', fac, lw, exps)
 
@@ -284,6 +357,9 @@ def r_expstep(ctx, a):
         ctx.oracle('Runge-Kutta step filter depends on u_next only', np.array_equal(np.asarray(out2['x']), fac))
         run = lambda flt, v: flt(other, v)
     ctx.corr('exponential step filter factors (attenuation dt/tau)', fac, tab * (fac.size // L), scale=1.0)
+    _log_corr(ctx, 'exponential step filter (attenuation dt/tau)', fac, exps)
+    fac_half = np.asarray(run(half, ones)['x'])
+    _semigroup_factors(ctx, 'two applications with half the step = one with the full step (exponential, on the factors)', fac, fac_half, exps)
     _factor_oracles(ctx, 'exponential_step_filter', fac, lw, exps)
     y_full = run(full, x); y_half = run(half, run(half, x))
     ctx.oracle_close('two applications with half the step = one with the full step (exponential)',
@@ -305,10 +381,18 @@ def r_hdstep(ctx, a):
     other = {'x': _data(rng, (2,) + ms), 't': np.float64(0.0)}
     fac = np.asarray(full(other, ones)['x'])
     ctx.corr('horizontal diffusion step filter factors', fac, tab * (fac.size // L), scale=1.0)
+    _log_corr(ctx, 'horizontal diffusion step filter', fac, exps)
+    fac_half = np.asarray(half(other, ones)['x'])
+    _semigroup_factors(ctx, 'two applications with half the step = one with the full step (diffusion, on the factors)', fac, fac_half, exps)
     _factor_oracles(ctx, 'horizontal_diffusion_step_filter', fac, lw, exps)
     top = int(np.argmax(np.asarray(lw)))
-    ctx.oracle_close('top total wavenumber decays like exp(-dt/tau)', fac[..., top], np.full(fac[..., top].shape, math.exp(-a['dt'] / a['tau'])),
-                     scale=math.exp(-a['dt'] / a['tau']), tol_rel=1e-9)
+    ratio = a['dt'] / a['tau']; ft = fac[..., top]
+    if ratio < 700:
+        ctx.oracle('top total wavenumber decays like exp(-dt/tau)', bool(np.all(ft > 0)) and
+                   bool(np.all(np.abs(np.log(np.where(ft > 0, ft, 1.0)) + ratio) <= 2.0 ** -36 * ratio + 1e-15)),
+                   {'factor': float(ft.ravel()[0]), 'dt/tau': ratio})
+    else:
+        ctx.oracle('top total wavenumber decays like exp(-dt/tau)', bool(np.all(ft <= 1e-300)), {'factor': float(ft.ravel()[0]), 'dt/tau': ratio})
     y_full = full(other, x); y_half = half(other, half(other, x))
     ctx.oracle_close('two applications with half the step = one with the full step (diffusion)',
                      np.asarray(y_half['x']), np.asarray(y_full['x']), scale=float(np.abs(x['x']).max()), tol_rel=1e-9)
@@ -378,6 +462,34 @@ def r_tree(ctx, a):
             want = np.asarray(x, dtype=np.float64) * np.asarray(sc)
             ctx.oracle_close('spectral leaves (.., L) are multiplied by the factor of their total wavenumber', np.asarray(y), want,
                              scale=float(np.abs(np.asarray(x)).max()) + 1e-300)
+    _int_leaves(ctx, a['kind'], f, L, Mm, K, sc, clause)
+
+
+def _int_leaves(ctx, name, f, L, Mm, K, sc, clause):
+    """Integer / boolean leaves: untouched ones come back as they are (same dtype); spectral ones are rescaled
+    exactly as their float64 copy (dtype promotion to float64, as on the unchanged tree)."""
+    jax, jnp, filtering, sh, ti = J()
+    tree = {'step': jnp.asarray(3, dtype=jnp.int32), 'count1': np.array([4], dtype=np.int64), 'flag': np.bool_(True),
+            'flags3': np.array([True, False, True]), 'pyint': 7, 'pybool': True, 'idx': jnp.arange(5, dtype=jnp.int64) - 2,
+            'iL': np.arange(L, dtype=np.int32) - 2, 'jML': jnp.asarray(np.arange(Mm * L).reshape(Mm, L) % 7 - 3, dtype=jnp.int32),
+            'bKML': (np.arange(K * Mm * L).reshape(K, Mm, L) % 3 == 0), 'u8L': np.arange(L, dtype=np.uint8)}
+    out, ok = _apply(ctx, clause, f, tree)
+    if not ok: return
+    fl = {k: np.asarray(v, dtype=np.float64) for k, v in tree.items()}
+    outf = f(fl)
+    for k, x in tree.items():
+        y = out[k]; s = list(np.shape(x))
+        spectral = len(s) >= 1 and s[-1] == L
+        _leaf_check(ctx, name + ' int/bool leaf ' + k, [L], sc, x, y)
+        if spectral:
+            ctx.oracle('integer/boolean spectral leaves are rescaled exactly like their float copy',
+                       np.shape(y) == np.shape(x) and np.asarray(y).dtype == np.float64 and np.array_equal(np.asarray(y), np.asarray(outf[k])),
+                       {'leaf': k, 'dtype': str(np.asarray(y).dtype)})
+        else:
+            same = (type(y) is type(x)) and np.shape(y) == np.shape(x) and np.asarray(y).dtype == np.asarray(x).dtype and \
+                np.array_equal(np.asarray(x), np.asarray(y))
+            ctx.oracle(clause, bool(same), {'leaf': k, 'in': repr(x)[:80], 'out': repr(y)[:80]})
+        ctx.count('int leaf spectral:%d' % spectral)
 
 
 def r_incompatible(ctx, a):
@@ -434,6 +546,8 @@ def r_array_strength(ctx, a):
     out, ok = _apply(ctx, 'array-valued strengths are accepted', f, tree)
     if not ok: return
     ctx.corr('scaling for array-valued strength (filter applied to ones(scaling.shape))', np.asarray(out['ones']), [Fraction(v) for v in sc], scale=1.0)
+    for i in range(T):
+        _log_corr(ctx, kind + ' array-valued strength, slice %d' % i, np.asarray(out['ones']).reshape(T, L)[i], m[lead + i * L: lead + (i + 1) * L])
     for k in ('x', 'ones', 'lower', 't'):
         _leaf_check(ctx, kind + ' array strength', sshape, sc, tree[k], out[k])
     for i in range(T):
@@ -489,6 +603,35 @@ def r_robert_asselin(ctx, a):
     ctx.count('ra linear:%d' % a['linear'])
 
 
+def r_ra_int(ctx, a):
+    jax, jnp, filtering, sh, ti = J()
+    r = a['r']; st = a['stride']
+    flt = ti.robert_asselin_leapfrog_filter(r)
+    def state(n):
+        return {'step': jnp.asarray(st * n, dtype=jnp.int32), 'count1': np.array([st * n], dtype=np.int64), 'pyint': st * n,
+                'members': jnp.arange(4, dtype=jnp.int64) * 3 + st * n, 'np_idx': np.arange(3, dtype=np.int32) - st * n,
+                'clock': 0.25 * n}
+    worst = 0.0; where = None; newest_ok = True
+    for n in range(1, a['steps']):
+        prev, cur, fut = state(n - 1), state(n), state(n + 1)
+        fc, ff = flt((prev, cur), (cur, fut))
+        for k in cur:
+            c = np.asarray(cur[k], dtype=np.float64); y = np.asarray(fc[k], dtype=np.float64)
+            scale = float(np.abs(np.asarray(fut[k], dtype=np.float64)).max()) + 1.0
+            e = float(np.abs(y - c).max()) / scale if np.shape(y) == np.shape(c) else float('inf')
+            if e > worst: worst, where = e, {'step': n, 'leaf': k, 'filtered': y.tolist(), 'current': c.tolist()}
+            nk = ff[k]
+            newest_ok = newest_ok and np.shape(nk) == np.shape(fut[k]) and np.asarray(nk).dtype == np.asarray(fut[k]).dtype and \
+                np.array_equal(np.asarray(nk), np.asarray(fut[k]))
+            if n % 10 == 3:
+                fl = lambda v: np.asarray(v, dtype=np.float64).ravel().tolist()
+                m = ctx.model.call(11, _shape_ints(list(np.shape(cur[k]))), [fl(prev[k]), fl(cur[k]), fl(fut[k]), [r]])
+                ctx.corr('robert_asselin on integer-dtype leaf ' + k, y, m, scale=3 * scale)
+    ctx.oracle('Robert-Asselin leaves a sequence that is linear in time unchanged', worst <= 1e-12, where)
+    ctx.oracle('Robert-Asselin leaves the newest time level unchanged', bool(newest_ok))
+    ctx.count('ra_int r=%g' % r)
+
+
 RUNNERS = {'shapes': r_shapes, 'expfilter': r_expfilter, 'hdfilter': r_hdfilter, 'expstep': r_expstep, 'hdstep': r_hdstep,
            'tree': r_tree, 'incompatible_leaf': r_incompatible, 'array_strength': r_array_strength,
-           'robert_asselin': r_robert_asselin}
+           'robert_asselin': r_robert_asselin, 'ra_int': r_ra_int}
